@@ -247,61 +247,77 @@ SINGLE_BYTE = {"ascii", "latin_1", "latin-1", "latin1", "iso-8859-1", "iso8859-1
 
 
 def h_r1(p: Project, rep: Report):
-    fn = p.get_function(HEADER, "parse_header").node
-    src = params_of(fn)[0]
+    rep.rule("H-R1", "v1 (helpers inlined, names by role): the source is repositioned to <position before the first header line> + <match end of OFXHeaderV1.parse(R)>, where R is exactly the concatenation of what was read from the source since that position, each chunk decoded with a single-byte codec: nothing inserted, stripped or skipped; the body is the rest of the stream decoded with header.codec, only surrounding whitespace stripped")
+    fn0 = p.get_function(HEADER, "parse_header").node
+    fn = _flat2(p, HEADER, fn0)
+    src = params_of(fn0)[0]
     cfg = CFG(fn)
     reach = Reaching(cfg)
-    rep.rule("H-R1", "v1: the string whose match end is used as the seek offset is exactly the concatenation of what was read from the source since header_start = source.tell(), decoded with a single-byte codec: nothing inserted, stripped or skipped; the body is read from header_start + <that offset> and only surrounding whitespace is stripped")
-    seeks = cfg.nodes_calling(lambda c: isinstance(c.func, ast.Attribute) and c.func.attr == "seek" and text(c.func.value) == src)
-    v1seek = [n for n in seeks if any(not (isinstance(a, ast.Constant) and a.value == 0) for c in n.calls() if isinstance(c.func, ast.Attribute) and c.func.attr == "seek" for a in c.args[:1])]
-    if not v1seek:
-        raise AnalysisError("H-R1: v1 seek(header_start + offset) not found")
     defs = local_defs(fn)
-    for n in v1seek:
-        c = [x for x in n.calls() if isinstance(x.func, ast.Attribute) and x.func.attr == "seek"][0]
+    seeks = [(n, c) for n in cfg.nodes for c in n.calls() if isinstance(c.func, ast.Attribute) and c.func.attr == "seek" and text(c.func.value) == src and c.args and not (isinstance(c.args[0], ast.Constant) and c.args[0].value == 0)]
+    if not seeks:
+        raise AnalysisError("H-R1: v1 seek(<start> + <offset>) not found")
+    for n, c in seeks:
         arg = c.args[0]
-        ok = isinstance(arg, ast.BinOp) and isinstance(arg.op, ast.Add) and {text(arg.left), text(arg.right)} == {"header_start", "header_end_offset"}
-        rep.check("H-R1", "parse_header:seek(header_start+offset)", ok, f"seeks to {text(arg)}" if not ok else "", hloc(p, c))
-    # header_end_offset comes from OFXHeaderV1.parse(rawheader)
-    offd = [d for d in defs.get("header_end_offset", [])]
-    ok = bool(offd) and all(d.kind == "unpack" and d.index == 1 and isinstance(d.value, ast.Call) and text(d.value.func) == "OFXHeaderV1.parse" and text(d.value.args[0]) == "rawheader" for d in offd)
-    rep.check("H-R1", "parse_header:offset-from-parse(rawheader)", ok, "" if ok else "the offset is not the match end of OFXHeaderV1.parse(rawheader)", hloc(p, fn))
-    # OFXHeaderBase.parse returns headermatch.end() of a match on its argument
+        names = [x for x in (arg.left, arg.right)] if isinstance(arg, ast.BinOp) and isinstance(arg.op, ast.Add) else []
+        start_n = off_n = None
+        for x in names:
+            if isinstance(x, ast.Name):
+                ds = defs.get(x.id, [])
+                if any(d.kind == "assign" and isinstance(d.value, ast.AST) and text(d.value) == f"{src}.tell()" for d in ds):
+                    start_n = x.id
+                elif any(d.kind == "unpack" and d.index == 1 and isinstance(d.value, ast.Call) and text(d.value.func) == "OFXHeaderV1.parse" for d in ds):
+                    off_n = x.id
+        if off_n is not None and start_n is None and any(isinstance(x, ast.Name) and any(d.kind == "unpack" or (d.kind == "assign" and isinstance(d.value, ast.Call) and "tell" not in text(d.value)) for d in defs.get(x.id, [])) for x in names):
+            raise AnalysisError("H-R1: the start position is computed by a helper that could not be inlined")
+        ok = start_n is not None and off_n is not None
+        rep.check("H-R1", "parse_header:seek(header_start+offset)", ok, f"the source is repositioned to {text(arg)}; expected <position before the first header line> + <match end of OFXHeaderV1.parse(raw header)>" if not ok else "", hloc(p, c))
+        if not ok:
+            continue
+        # R: the argument of OFXHeaderV1.parse
+        pd = [d for d in defs[off_n] if d.kind == "unpack"][0]
+        R = pd.value.args[0]
+        if not isinstance(R, ast.Name):
+            raise AnalysisError(f"H-R1: raw header is {text(R)} (not a plain accumulated name)")
+        for d in defs.get(R.id, []):
+            if d.kind == "assign":
+                vals = [text(v) for v in resolve_values(d.value, cfg.node_of(d.stmt), reach)]
+                good = bool(vals) and all(_is_chunk(v, src) for v in vals)
+                rep.check("H-R1", "parse_header:rawheader-starts-with-first-line-as-read", good, f"the raw header starts as {vals}: it differs from the bytes consumed since the start position (inserted, stripped or re-encoded characters shift the seek offset)" if not good else "", hloc(p, d.stmt))
+            elif d.kind == "augassign":
+                v = text(d.stmt.value)
+                good = isinstance(d.stmt.op, ast.Add) and _is_chunk(v, src)
+                rep.check("H-R1", "parse_header:rawheader-extended-with-lines-as-read", good, f"the raw header is extended with {v}" if not good else "", hloc(p, d.stmt))
+            else:
+                raise AnalysisError(f"H-R1: raw header bound by {d.kind}")
+        # the start position is taken immediately before the first line is read
+        hs = [d.stmt for d in defs.get(start_n, []) if d.kind == "assign"]
+        good = bool(hs)
+        for st in hs:
+            body = parent(st).body if hasattr(parent(st), "body") else []
+            k = body.index(st) if st in body else -1
+            nxt = body[k + 1] if 0 <= k < len(body) - 1 else None
+            good = good and isinstance(nxt, ast.Assign) and _is_chunk(text(nxt.value), src)
+        rep.check("H-R1", "parse_header:header_start-just-before-first-read", good, "" if good else "the start position is not the stream position immediately before the first header line is read (or that line is altered as it is read)", hloc(p, fn0))
     pfn0 = p.get_class(HEADER, "OFXHeaderBase").own_func("parse")
     pfn = _flat2(p, HEADER, pfn0, p.get_class(HEADER, "OFXHeaderBase"))
     rps_, _x = _rp(pfn, expander=Expander(pfn))
-    ok = bool(rps_) and all(rt.rstrip(")").endswith(f".search({params_of(pfn0)[1]}).end(") or rt.endswith(".end())") for _p, rt, _s in rps_)
-    rep.check("H-R1", "parse:returns-match-end", ok, "" if ok else "parse() does not return the end of the header match", hloc(p, pfn))
-    # rawheader provenance
-    rd = defs.get("rawheader", [])
-    if not rd:
-        raise AnalysisError("H-R1: rawheader not found")
-    for d in rd:
-        if d.kind == "assign":
-            vals = [text(v) for v in resolve_values(d.value, cfg.node_of(d.stmt), reach)]
-            ok = bool(vals) and all(_is_chunk(v, src) for v in vals)
-            rep.check("H-R1", "parse_header:rawheader-starts-with-first-line-as-read", ok, f"rawheader starts as {vals}: it differs from the bytes consumed since header_start (inserted, stripped or re-encoded characters shift the seek offset)" if not ok else "", hloc(p, d.stmt))
-        elif d.kind == "augassign":
-            v = text(d.stmt.value)
-            ok = isinstance(d.stmt.op, ast.Add) and _is_chunk(v, src)
-            rep.check("H-R1", "parse_header:rawheader-extended-with-lines-as-read", ok, f"rawheader is extended with {v}" if not ok else "", hloc(p, d.stmt))
-    # header_start is taken immediately before the read of the first line, in the same loop body
-    hs = [s for s in own_statements(fn) if isinstance(s, ast.Assign) and text(s.targets[0]) == "header_start"]
-    ok = bool(hs)
-    for s in hs:
-        body = parent(s).body if hasattr(parent(s), "body") else []
-        i = body.index(s) if s in body else -1
-        nxt = body[i + 1] if 0 <= i < len(body) - 1 else None
-        ok = ok and text(s.value) == f"{src}.tell()" and isinstance(nxt, ast.Assign) and _is_chunk(text(nxt.value), src) and text(nxt.targets[0]) == "line"
-    rep.check("H-R1", "parse_header:header_start-just-before-first-read", ok, "" if ok else "header_start is not the stream position immediately before the first header line is read", hloc(p, fn))
-    # body read + strip
-    msgs = [s for s in own_statements(fn) if isinstance(s, ast.Assign) and text(s.targets[0]) == "message"]
-    for s in msgs:
-        v = text(s.value)
-        if "read()" in v:
-            ok = v in (f"{src}.read().decode(header.codec).strip()", f"{src}.read().decode(header.codec)")
-            rep.check("H-R1", "parse_header:v1-body", ok, f"v1 body is {v}; expected the rest of the stream decoded with header.codec, surrounding whitespace stripped" if not ok else "", hloc(p, s))
-
+    ok = bool(rps_) and all(rt.endswith(".end())") for _p, rt, _s in rps_)
+    rep.check("H-R1", "parse:returns-match-end", ok, "" if ok else "parse() does not return the end of the header match", hloc(p, pfn0))
+    # body: rest of the stream decoded with the header's codec
+    reads = [x for x in ast.walk(fn) if isinstance(x, ast.Call) and text(x.func) == f"{src}.read().decode" and x.args and "OFXHeaderV2" not in text(x.args[0])]
+    for x in reads:
+        codec = text(x.args[0])
+        ok = codec.endswith(".codec") and not codec.startswith("OFXHeaderV")
+        rep.check("H-R1", "parse_header:v1-body", ok, f"the v1 body is decoded with {codec}, not with the codec of the parsed header" if not ok else "", hloc(p, x))
+        par = parent(x)
+        if isinstance(par, ast.Attribute) and par.attr in ("strip", "lstrip", "rstrip"):
+            call = parent(par)
+            ok = isinstance(call, ast.Call) and not call.args and par.attr == "strip"
+            rep.check("H-R1", "parse_header:v1-body-strip", ok, f"the body is stripped with {text(call)[-30:]}: characters other than surrounding whitespace are removed" if not ok else "", hloc(p, x))
+    strips = [c_ for c_ in ast.walk(fn) if isinstance(c_, ast.Call) and isinstance(c_.func, ast.Attribute) and c_.func.attr in ("strip", "lstrip", "rstrip") and c_.args]
+    for c_ in strips:
+        rep.check("H-R1", "parse_header:strip-with-characters", False, f"{text(c_)[:60]} removes characters other than whitespace", hloc(p, c_))
 
 
 def h_r2(p: Project, rep: Report):
@@ -338,36 +354,41 @@ def h_r2(p: Project, rep: Report):
 
 
 def h_r3(p: Project, rep: Report):
-    fn = p.get_function(HEADER, "parse_header").node
-    src = params_of(fn)[0]
-    cfg = CFG(fn)
-    reach = Reaching(cfg)
-    defs = local_defs(fn)
-    msgs = [s_ for s_ in own_statements(fn) if isinstance(s_, ast.Assign) and text(s_.targets[0]) == "message"]
-    rep.rule("H-R3", "v2: the whole source is re-read from the start, decoded with OFXHeaderV2.codec, searched by OFXHeaderV2.parse and the body is the slice of that same string from the match end")
-    ds = [s for s in own_statements(fn) if isinstance(s, ast.Assign) and text(s.targets[0]) == "decoded_source"]
-    ok = bool(ds) and all(text(s.value) == f"{src}.read().decode(OFXHeaderV2.codec)" for s in ds)
-    rep.check("H-R3", "parse_header:v2-decoded-with-header-codec", ok, f"v2 source decoded as {[text(s.value) for s in ds]}" if not ok else "", hloc(p, fn))
-    for s in ds:
-        body = parent(s).body
-        i = body.index(s)
-        prev = body[i - 1] if i > 0 else None
-        ok = isinstance(prev, ast.Expr) and text(prev.value) == f"{src}.seek(0)"
-        rep.check("H-R3", "parse_header:v2-rewinds", ok, "" if ok else "the source is not rewound before it is re-read", hloc(p, s))
-    for s in msgs:
-        v = text(s.value)
-        if "decoded_source" in v:
-            ok = v == "decoded_source[header_end_index:]" or v == "decoded_source[header_end_index:].strip()"
-            rep.check("H-R3", "parse_header:v2-body-slice", ok, f"v2 body is {v}" if not ok else "", hloc(p, s))
-    idx = defs.get("header_end_index", [])
-    ok = bool(idx) and all(d.kind == "unpack" and d.index == 1 and isinstance(d.value, ast.Call) and text(d.value.func) == "OFXHeaderV2.parse" and text(d.value.args[0]) == "decoded_source" for d in idx)
-    rep.check("H-R3", "parse_header:v2-index-from-parse(decoded_source)", ok, "" if ok else "the slice index is not the match end on the decoded source", hloc(p, fn))
-    # version dispatch by XML declaration on the first non-blank line
-    xm = [s for s in own_statements(fn) if isinstance(s, ast.Assign) and text(s.targets[0]) == "xml_match"]
-    ok = bool(xm) and all(text(s.value) == "XML_REGEX.match(line)" for s in xm)
-    rep.check("H-R3", "parse_header:v2-detected-by-xml-declaration", ok, "" if ok else "v1/v2 is not decided by XML_REGEX.match on the first non-blank line", hloc(p, fn))
-
-
+    rep.rule("H-R3", "v2 (helpers inlined, names by role): the whole source is re-read from the start, decoded with OFXHeaderV2.codec, searched by OFXHeaderV2.parse and the body is the slice of that same string from the match end; v1/v2 is decided by XML_REGEX.match on the first non-blank line")
+    fn0 = p.get_function(HEADER, "parse_header").node
+    fn = _flat2(p, HEADER, fn0)
+    src = params_of(fn0)[0]
+    ex = Expander(fn)
+    stmts = own_statements(fn)
+    # role: decoded source = <name> assigned <src>.read().decode(<codec>) that is then handed to OFXHeaderV2.parse
+    parses = [s_ for s_ in stmts if isinstance(s_, ast.Assign) and isinstance(s_.value, ast.Call) and text(s_.value.func) == "OFXHeaderV2.parse" and s_.value.args]
+    if not parses:
+        raise AnalysisError("H-R3: no OFXHeaderV2.parse(...) call found in parse_header")
+    for ps in parses:
+        arg = ps.value.args[0]
+        argt = ex.t(arg)
+        ok = argt == f"{src}.read().decode(OFXHeaderV2.codec)"
+        rep.check("H-R3", "parse_header:v2-decoded-with-header-codec", ok, f"the v2 header is searched in {argt[:70]}; expected the whole source decoded with OFXHeaderV2.codec" if not ok else "", hloc(p, ps))
+        # rewind before the read
+        dec = [s_ for s_ in stmts if isinstance(s_, ast.Assign) and isinstance(arg, ast.Name) and any(isinstance(t, ast.Name) and t.id == arg.id for t in s_.targets)]
+        for d in dec:
+            body = parent(d).body if hasattr(parent(d), "body") else []
+            k = body.index(d) if d in body else -1
+            prev = [b for b in body[:k] if isinstance(b, ast.Expr) and isinstance(b.value, ast.Call) and text(b.value.func) == f"{src}.seek"]
+            ok = bool(prev) and text(prev[-1].value) == f"{src}.seek(0)"
+            rep.check("H-R3", "parse_header:v2-rewinds", ok, "" if ok else "the source is not rewound to its start before it is re-read", hloc(p, d))
+        # the slice
+        tgt = ps.targets[0]
+        idx_name = tgt.elts[1].id if isinstance(tgt, ast.Tuple) and len(tgt.elts) == 2 and isinstance(tgt.elts[1], ast.Name) else None
+        slices = [x for x in ast.walk(fn) if isinstance(x, ast.Subscript) and isinstance(x.slice, ast.Slice) and isinstance(x.slice.lower, ast.Name) and x.slice.lower.id == idx_name]
+        if not slices:
+            rep.check("H-R3", "parse_header:v2-body-slice", False, "the body is not the slice of the decoded source from the header's match end", hloc(p, ps))
+        for sl in slices:
+            ok = text(sl.value) == text(arg) and sl.slice.upper is None and sl.slice.step is None
+            rep.check("H-R3", "parse_header:v2-body-slice", ok, f"the body is sliced from {text(sl.value)}, not from the string the header was searched in ({text(arg)})" if not ok else "", hloc(p, sl))
+    xm = [c for c in own_nodes(fn) if isinstance(c, ast.Call) and text(c.func) in ("XML_REGEX.match", "XML_REGEX.search")]
+    ok = bool(xm) and all(text(c.func) == "XML_REGEX.match" for c in xm)
+    rep.check("H-R3", "parse_header:v2-detected-by-xml-declaration", ok, "" if ok else "v1/v2 is not decided by XML_REGEX.match on the first non-blank line", hloc(p, fn0))
 
 
 def h_rules(p: Project, rep: Report):
